@@ -56,6 +56,7 @@ int main(int argc, char **argv)
     if(c == "audio") return comp_audio();
     if(c == "api") return comp_api();
     if(c == "iso") return comp_iso();
+    if(c == "front") return comp_front();
     fprintf(stderr, "unknown component %s\n", c.c_str());
     return 2;
 }
